@@ -738,6 +738,12 @@ std::string check_decode(const std::string &text, const std::string &delim, size
       try { r = S::HexStrToRawData(text, out.u8(), (uint16_t)cap); } catch (const std::exception &) { threw = true; }
       if (threw) { if (valid) return fmt("HexStrToRawData(str,ptr,%zu) threw on %s '%s' whose first %zu pairs are hex digits", cap, what, text.substr(0, 40).c_str(), m); continue; }
       if (r > cap) return fmt("HexStrToRawData(str,ptr,cap) returned %zu for capacity %zu", r, cap);
+      // a character outside [0-9A-Fa-f] at a nibble position the call has to look at: the only failure channel of this
+      // function is its exception (string.h NotAZaz09Exception; unit tests HexStrToRawDataVector5/11), so it must throw
+      if (!valid) {
+        size_t bad = 0; while (bad < 2 * m && is_hex((uint8_t)text[bad])) ++bad;
+        return fmt("HexStrToRawData(str,ptr,%zu) accepted the text %s and returned %zu although the byte 0x%02x at offset %zu is not a hex digit", cap, hexs(text, 16).c_str(), r, (unsigned)(uint8_t)text[bad], bad);
+      }
       if (valid) {
         if (r != m) return fmt("HexStrToRawData(str,ptr,%zu) returned %zu for %s '%s', expected %zu", cap, r, what, text.substr(0, 40).c_str(), m);
         if (m && memcmp(out.u8(), want.data(), m)) return fmt("HexStrToRawData(str,ptr,%zu) of '%s' gave %s, expected %s", cap, text.substr(0, 40).c_str(), hexs(out.u8(), m).c_str(), hexs(want).c_str());
@@ -756,12 +762,32 @@ std::string check_decode(const std::string &text, const std::string &delim, size
     return "";
   }
   if (r != out.size()) return fmt("HexStrToRawData(str,vector) returned %zu but the vector holds %zu", r, out.size());
+  // reference rejects (a byte outside [0-9A-Fa-f] that is not a delimiter / surrounding blank, an odd digit count, a group of
+  // more than 2 digits): the decoder has to fail, and its only failure channel is an exception
+  if (!valid) return fmt("HexStrToRawData(str,vector,delim=%s) accepted the malformed text %s (%zu chars) and returned %zu bytes %s", hexs(delim).c_str(), hexs(text, 16).c_str(), text.size(), r, hexs(out, 8).c_str());
   if (valid && out != want) return fmt("HexStrToRawData(str,vector,delim=%s) of %s '%s' gave %s, expected %s", hexs(delim).c_str(), what, text.substr(0, 40).c_str(), hexs(out).c_str(), hexs(want).c_str());
+  return "";
+}
+
+// every byte value 0..255 as the high and as the low nibble character of a one-byte text, through both decoder overloads
+// (no delimiter, 1-character and 2-character delimiter): 512 texts, run with the first case of every process
+std::string exhaustive_nibble_characters() {
+  CaseInfo scratch;
+  for (int pos = 0; pos < 2; ++pos)
+    for (int b = 0; b < 256; ++b) {
+      std::string text = pos == 0 ? std::string{(char)b, '7'} : std::string{'7', (char)b};
+      for (const char *delim : {"", ":", ", "}) {
+        std::string e = check_decode(text, delim, 1, 0, false, scratch);
+        if (!e.empty()) return fmt("byte 0x%02x as the %s nibble character: %s", b, pos == 0 ? "high" : "low", e.c_str());
+      }
+    }
   return "";
 }
 
 std::string run(const Scenario &s, CaseInfo &info) {
   selftest();
+  static bool probed = false;
+  if (!probed) { probed = true; std::string e = exhaustive_nibble_characters(); stats().counters["exhaustive_nibble_character_texts"] += 512; if (!e.empty()) return e; }
   CfgData cd = split(s, &kBig);
   if (cd.big) { info.cls("large_value_12000_to_65535_bytes"); info.cls(kBigDataPattern[cd.pattern]); }
   int mode = (int)cd.cfg.in(0, 0, 2);
@@ -829,11 +855,13 @@ SubDef def = [] {
     auto any = byteGen({0, 255, 0x80, 0x0f, 0xf0}, 1, 6, 1);
     auto texty = byteGen(chars("0123456789abcdefABCDEF0123456789  \t:,-gG"), 30, 1, 1);
     auto cfg = [](int mode) { return mkop(CFG, {rc::gen::just<int64_t>(mode), range(0, 1), rc::gen::weightedOneOf<int64_t>({{3, rc::gen::just<int64_t>(0)}, {4, range(1, kNDelims - 1)}}), range(1, 9), range(0, 4),
-                                                range(0, 5), range(0, 255), byteGen({'g', 'G', ' ', 0, 0x80, 0xff, ':', '/', '@', '`'}, 3, 2, 2)}); };
+                                                range(0, 5), range(0, 255), byteGen({'g', 'G', ' ', 0, 0x80, 0xff, ':', '/', '@', '`'}, 2, 5, 1)}); };   // mutation value: uniform 0..255 in 5 of 8
+    auto textyAll = byteGen(chars("0123456789abcdefABCDEF"), 20, 6, 1);     // hex digits with characters drawn from all 256 values
     return rc::gen::weightedOneOf<Scenario>({
       {600, scenarioOf(fixedOps({cfg(0)}), fixedOps({opOfBytes(DATA, any)}))},
       {450, scenarioOf(fixedOps({cfg(2)}), fixedOps({opOfBytes(DATA, any)}))},
-      {450, scenarioOf(fixedOps({cfg(1)}), fixedOps({opOfBytes(DATA, texty)}))},
+      {250, scenarioOf(fixedOps({cfg(1)}), fixedOps({opOfBytes(DATA, texty)}))},
+      {200, scenarioOf(fixedOps({cfg(1)}), fixedOps({opOfBytes(DATA, textyAll)}))},
       {2, scenarioOf(fixedOps({cfg(0)}), fixedOps({bigDataOp(kBig)}))},        // large value: round trip
       {1, scenarioOf(fixedOps({cfg(2)}), fixedOps({bigDataOp(kBig)}))}});      // large value: mutated encoding
   };
